@@ -244,7 +244,7 @@ func c06PRF(c *Ctx) {
 		lb := &LB{p: c.P, f: f, UsedContracts: map[string]bool{}}
 		var mac, key, iv ssa.Value
 		for _, p := range f.Params {
-			switch p.Name() {
+			switch pname(p) {
 			case "macLen":
 				mac = p
 			case "keyLen":
@@ -536,7 +536,7 @@ func c06PHash(c *Ctx) {
 	}
 	var seed, result ssa.Value
 	for _, p := range f.Params {
-		switch p.Name() {
+		switch pname(p) {
 		case "seed":
 			seed = p
 		case "result":
@@ -722,7 +722,7 @@ func c06Fragment(c *Ctx) {
 	}
 	var dataParam ssa.Value
 	for _, p := range f.Params {
-		if p.Name() == "data" {
+		if pname(p) == "data" {
 			dataParam = p
 		}
 	}
